@@ -69,18 +69,18 @@ theorem invP_dir {marks : List Nat} {st : PState} (h : InvP marks st) (d : Nat) 
 theorem invP_vers {marks : List Nat} {st : PState} (h : InvP marks st) (v : List Nat) :
     InvP marks { st with vers := v } := h
 
-theorem invP_insert_none {marks : List Nat} {st : PState} (h : InvP marks st) (k : MKey) :
-    InvP marks { st with memo := st.memo.insert k none } := by
+theorem invP_insert_none {marks : List Nat} {st : PState} (h : InvP marks st) (cap : Option Nat) (k : MKey) :
+    InvP marks { st with memo := st.memo.insert cap k none } := by
   intro f pos b ts len hm hf
-  rcases find_insert st.memo k (f, pos, b) none _ hf with ⟨_, h2⟩ | h2
+  rcases find_insert cap st.memo k (f, pos, b) none _ hf with ⟨_, h2⟩ | h2
   · simp at h2
   · exact h f pos b ts len hm h2
 
-theorem invP_insert_some {marks : List Nat} {st : PState} (h : InvP marks st) (f pos : Nat) (b : Bool)
+theorem invP_insert_some {marks : List Nat} {st : PState} (h : InvP marks st) (cap : Option Nat) (f pos : Nat) (b : Bool)
     (ts : List Tree) (len : Nat) (hl : marks.contains f = true → 0 < len) :
-    InvP marks { st with memo := st.memo.insert (f, pos, b) (some (ts, len)) } := by
+    InvP marks { st with memo := st.memo.insert cap (f, pos, b) (some (ts, len)) } := by
   intro f' pos' b' ts' len' hm hf
-  rcases find_insert st.memo (f, pos, b) (f', pos', b') (some (ts, len)) _ hf with ⟨h1, h2⟩ | h2
+  rcases find_insert cap st.memo (f, pos, b) (f', pos', b') (some (ts, len)) _ hf with ⟨h1, h2⟩ | h2
   · simp at h1 h2
     obtain ⟨rfl, rfl, rfl⟩ := h1
     obtain ⟨rfl, rfl⟩ := h2
@@ -470,13 +470,13 @@ theorem pAll_succ (g : Grammar) (inp : Input) (marks : List Nat) (hm : MarksOK g
         · rename_i q r' ts st' heq
           rw [heq] at h1
           refine ⟨?_, h1.2.1, h1.2.2⟩
-          apply invP_insert_some h1.1
+          apply invP_insert_some h1.1 g.memoCap
           intro hp
           have : pos < q := h1.2.2 hp
           omega
         · rename_i ep st' heq
           rw [heq] at h1
-          exact ⟨invP_insert_none h1.1 _, trivial, fun _ => trivial⟩
+          exact ⟨invP_insert_none h1.1 _ _, trivial, fun _ => trivial⟩
         · rename_i st' heq
           rw [heq] at h1
           exact PSpec.oof h1.1
